@@ -83,6 +83,8 @@ func stressMkQuery0(r *gen.R, o *stressOpts, ups []string, worker, seq int) *str
 		kind = "empty"
 	case x == 2:
 		kind = "rc9"
+	case x == 3 && up == "udp" && r.P(0.3):
+		kind = "half" // the datagram is cut in the middle while its header still announces every record
 	}
 	delay := 0
 	if o.MaxDelayMs > 0 && r.P(0.7) {
@@ -156,6 +158,11 @@ func runStress(c *Ctx, o stressOpts) *stressResult {
 			return
 		}
 		switch sq.kind {
+		case "half":
+			// nothing decodable was sent for this query: whatever the response is made of, it is not
+			// the upstream's answer to it
+			viol("answer-from-cut-reply:"+listener, fmt.Sprintf("%s: the upstream's only reply to %s was a datagram cut in the middle, yet a response with rcode %d and %d/%d/%d records was returned (made of what the receive buffer held before)", listener, sq.q.Name, m.Rcode, len(m.Answer), len(m.Ns), len(m.Extra)), cs)
+			return
 		case "ok", "nx":
 			serial, err := CheckKeyed(sq.q, sq.tag, m)
 			if err != nil {
